@@ -29,6 +29,18 @@ def begin(seed, policy, p=0.02, bias_p=0.3, tick_cap=20000000):
     L.verif_sched_begin(seed & (2**64 - 1), policy, p, bias_p, tick_cap)
 
 
+def set_stall(p, us):
+    """'slow or stalled node' fault: at each pre-emption point the running thread is parked for us microseconds of simulated time with probability p
+    (x300 while another thread waits on a mutex or polls in a sleep loop)"""
+    L.verif_sched_set_stall.argtypes = [ctypes.c_double, ctypes.c_int64]
+    L.verif_sched_set_stall(float(p), int(us))
+
+
+def stalls():
+    L.verif_sched_stalls.restype = ctypes.c_uint64
+    return int(L.verif_sched_stalls())
+
+
 def end():
     L.verif_sched_end()
 
